@@ -2,7 +2,7 @@
 (* Trace validation for C17: one record per transfer executed between two real SecsIProtocol          *)
 (* stations over an in-memory line.  The reference blocks are computed here from SecsIBlock.          *)
 (* TRACE_FILE: JSON array of                                                                        *)
-(*  [id, h (header fields), n (body = Pattern(n)), writes : Seq([who:"S"|"R", bytes]),                  *)
+(*  [id, h (header fields), n (body = Pattern(n), or -- custom = TRUE -- the bytes in body), writes : Seq([who:"S"|"R", bytes]),                  *)
 (*   corrupt : 0 | index of the block whose copy on the line was altered, result : BOOLEAN | "none",     *)
 (*   delivered : Seq([h, n, same])   messages handed over at the receiver (same = body equals Pattern)   *)
 (*   lenbyte : BOOLEAN (the altered byte is the length byte), wedged : BOOLEAN]                                                                               *)
@@ -20,7 +20,7 @@ Norm(ws) == [i \in 1..Len(ws) |-> W(ws[i].who, ws[i].bytes)]
 
 Clause(t) ==
   LET hdr == [r |-> t.h.r, dev |-> t.h.dev, w |-> t.h.w, s |-> t.h.s, f |-> t.h.f, e |-> FALSE, blk |-> 0, sys |-> t.h.sys]
-      blocks == Split(hdr, Pattern(t.n))
+      blocks == Split(hdr, IF t.custom THEN t.body ELSE Pattern(t.n))      \* custom: the body bytes are given explicitly
       ws == Norm(t.writes)
       okRun == Expected(blocks, 1, Len(blocks))
       \* up to the transmission of the altered block everything is regular; then the receiver answers NAK (after a
